@@ -122,8 +122,10 @@ func runC20(c *core.Ctx, r *core.Result) {
 				if got == nil {
 					return fail("lost", "the handler returned %T but the client got nil", e)
 				}
-				if _, isStatus := status.FromError(e); isStatus {
-					// already a gRPC status error: passes through unchanged
+				if _, isStatus := e.(interface{ GRPCStatus() *status.Status }); isStatus {
+					// the handler's error itself is a gRPC status error: it
+					// passes through unchanged (a tree that merely contains one
+					// is an ordinary error and must arrive like a direct transfer)
 					st, _ := status.FromError(e)
 					gs, ok := status.FromError(got)
 					if !ok || gs.Code() != st.Code() || gs.Message() != st.Message() {
